@@ -18,6 +18,18 @@ Local Arguments N.max : simpl never.
 Local Arguments N.add : simpl never.
 Local Arguments N.sub : simpl never.
 
+(* [vm_compute] is call-by-value: [a && b] and [a || b] evaluate b whatever a is.  The
+   checkers use [if] and these short-circuit versions of [forallb] / [existsb]. *)
+Fixpoint allb {A} (f : A -> bool) (l : list A) : bool :=
+  match l with [] => true | x :: r => if f x then allb f r else false end.
+Fixpoint anyb {A} (f : A -> bool) (l : list A) : bool :=
+  match l with [] => false | x :: r => if f x then true else anyb f r end.
+
+Lemma allb_forallb {A} (f : A -> bool) l : allb f l = forallb f l.
+Proof. induction l as [|x r IH]; cbn; [reflexivity|]. rewrite IH. destruct (f x); reflexivity. Qed.
+Lemma anyb_existsb {A} (f : A -> bool) l : anyb f l = existsb f l.
+Proof. induction l as [|x r IH]; cbn; [reflexivity|]. rewrite IH. destruct (f x); reflexivity. Qed.
+
 (* the definition of a rule *)
 Definition def (G : grammar) (r : rid) : option expr :=
   match G r with Some ru => rdef ru | None => None end.
@@ -281,9 +293,10 @@ Fixpoint cover (fuel : nat) (lo hi : N) (l : cclass) : bool :=
   end.
 
 Definition cc_sub (l1 l2 : cclass) : bool :=
-  forallb (fun p => (snd p <? fst p)%N || cover (S (length l2)) (fst p) (snd p) l2) l1.
+  allb (fun p => if (snd p <? fst p)%N then true
+                 else cover (S (length l2)) (fst p) (snd p) l2) l1.
 
-Definition cc_eqb (l1 l2 : cclass) : bool := cc_sub l1 l2 && cc_sub l2 l1.
+Definition cc_eqb (l1 l2 : cclass) : bool := if cc_sub l1 l2 then cc_sub l2 l1 else false.
 
 Lemma reach_sound x l : forall m, reach x l = Some m ->
   forall c, (x <= c)%N -> (c <= m)%N -> in_cc c l = true.
@@ -315,18 +328,18 @@ Qed.
 Lemma cc_sub_sound l1 l2 : cc_sub l1 l2 = true ->
   forall c, in_cc c l1 = true -> in_cc c l2 = true.
 Proof.
-  unfold cc_sub. rewrite forallb_forall. intros H c Hin.
+  unfold cc_sub. rewrite allb_forallb, forallb_forall. intros H c Hin.
   unfold in_cc in Hin. apply existsb_exists in Hin. destruct Hin as [p [Hp Hc]].
   apply andb_true_iff in Hc. destruct Hc as [H1 H2].
   apply N.leb_le in H1. apply N.leb_le in H2.
-  specialize (H p Hp). apply orb_true_iff in H. destruct H as [H|H].
-  - apply N.ltb_lt in H. lia.
+  specialize (H p Hp). cbv beta in H. destruct (snd p <? fst p)%N eqn:E.
+  - apply N.ltb_lt in E. lia.
   - exact (cover_sound _ _ _ _ H c H1 H2).
 Qed.
 
 Theorem cc_eqb_sound l1 l2 : cc_eqb l1 l2 = true -> forall c, in_cc c l1 = in_cc c l2.
 Proof.
-  unfold cc_eqb. intros H c. apply andb_true_iff in H. destruct H as [H1 H2].
+  unfold cc_eqb. intros H2 c. destruct (cc_sub l1 l2) eqn:H1; [|discriminate].
   pose proof (cc_sub_sound _ _ H1 c) as A. pose proof (cc_sub_sound _ _ H2 c) as B.
   destruct (in_cc c l1); destruct (in_cc c l2); try reflexivity.
   - symmetry. apply A. reflexivity.
@@ -771,7 +784,7 @@ End Half.
 Fixpoint forall2b {A B} (f : A -> B -> bool) (l1 : list A) (l2 : list B) : bool :=
   match l1, l2 with
   | [], [] => true
-  | x :: r, y :: r' => f x y && forall2b f r r'
+  | x :: r, y :: r' => if f x y then forall2b f r r' else false
   | _, _ => false
   end.
 
@@ -780,7 +793,7 @@ Lemma forall2b_F2 {A B} (f : A -> B -> bool) (R : A -> B -> Prop) l1 : forall l2
 Proof.
   induction l1 as [|x r IH]; intros l2 H HR; destruct l2 as [|y r']; cbn in H; try discriminate.
   - constructor.
-  - apply andb_true_iff in H. destruct H as [H1 H2]. constructor; auto.
+  - destruct (f x y) eqn:H1; [|discriminate]. constructor; auto.
 Qed.
 
 Lemma forall2b_F2_flip {A B} (f : A -> B -> bool) (R : B -> A -> Prop) l1 : forall l2,
@@ -788,7 +801,7 @@ Lemma forall2b_F2_flip {A B} (f : A -> B -> bool) (R : B -> A -> Prop) l1 : fora
 Proof.
   induction l1 as [|x r IH]; intros l2 H HR; destruct l2 as [|y r']; cbn in H; try discriminate.
   - constructor.
-  - apply andb_true_iff in H. destruct H as [H1 H2]. constructor; auto.
+  - destruct (f x y) eqn:H1; [|discriminate]. constructor; auto.
 Qed.
 
 Definition optnat_eqb (a b : option nat) : bool :=
@@ -817,7 +830,7 @@ Section Sim.
     end.
 
   Definition in_pairs (a b : rid) : bool :=
-    existsb (fun p => N.eqb (fst p) a && N.eqb (snd p) b) pairs.
+    anyb (fun p => if N.eqb (fst p) a then N.eqb (snd p) b else false) pairs.
 
   (* expressions are kept normalised ([norm]): the definitions are normalised when a
      reference is unfolded, and sub-expressions of a normal form are normal *)
@@ -842,10 +855,12 @@ Section Sim.
         | ELit cs1 v1, ELit cs2 v2 => lit_eqb cs1 v1 cs2 v2
         | ECat es1, ECat es2 => forall2b (simb_aux f) es1 es2
         | EAlt _ es1, EAlt _ es2 =>
-          forallb (fun x => existsb (fun y => simb_aux f x y) es2) es1 &&
-          forallb (fun y => existsb (fun x => simb_aux f x y) es1) es2
+          if allb (fun x => anyb (fun y => simb_aux f x y) es2) es1
+          then allb (fun y => anyb (fun x => simb_aux f x y) es1) es2
+          else false
         | ERep _ mn1 mx1 x, ERep _ mn2 mx2 y =>
-          Nat.eqb mn1 mn2 && optnat_eqb mx1 mx2 && simb_aux f x y
+          if Nat.eqb mn1 mn2 then (if optnat_eqb mx1 mx2 then simb_aux f x y else false)
+          else false
         | EProse, EProse => true
         | _, _ => false
         end
@@ -894,9 +909,10 @@ Section Sim.
 
   Lemma in_pairs_In a b : in_pairs a b = true -> In (a, b) pairs.
   Proof.
-    unfold in_pairs. intros H. apply existsb_exists in H. destruct H as [[x y] [Hin H]].
-    cbn in H. apply andb_true_iff in H. destruct H as [H1 H2].
-    apply N.eqb_eq in H1. apply N.eqb_eq in H2. subst. exact Hin.
+    unfold in_pairs. rewrite anyb_existsb. intros H. apply existsb_exists in H.
+    destruct H as [[x y] [Hin H]]. cbn [fst snd] in H.
+    destruct (N.eqb x a) eqn:H1; [|discriminate].
+    apply N.eqb_eq in H1. apply N.eqb_eq in H. subst. exact Hin.
   Qed.
 
   (* every assumed pair has been checked, with some fuel *)
@@ -929,19 +945,21 @@ Section Sim.
       apply lit_eqb_sound in H. destruct H as [Hlen Hok]. split; apply Half_lit; auto.
       intros s i. symmetry. apply Hok.
     - (* alternations, as sets *)
-      apply andb_true_iff in H. destruct H as [HA HB]. rewrite forallb_forall in HA, HB.
+      match type of H with (if ?c then _ else _) = _ => destruct c eqn:HA end; [|discriminate H].
+      rename H into HB. rewrite allb_forallb, forallb_forall in HA, HB.
       split; apply Half_alt.
-      + intros x Hx. specialize (HA x Hx). apply existsb_exists in HA.
+      + intros x Hx. specialize (HA x Hx). rewrite anyb_existsb in HA. apply existsb_exists in HA.
         destruct HA as [y [Hy HS]]. exists y. split; [exact Hy|]. exact (proj1 (IHf _ _ HS)).
-      + intros y Hy. specialize (HB y Hy). apply existsb_exists in HB.
+      + intros y Hy. specialize (HB y Hy). rewrite anyb_existsb in HB. apply existsb_exists in HB.
         destruct HB as [x [Hx HS]]. exists x. split; [exact Hx|]. exact (proj2 (IHf _ _ HS)).
     - (* concatenations, pairwise *)
       split; apply Half_cat.
       + apply (forall2b_F2 _ _ _ _ H). intros x y HS. exact (proj1 (IHf _ _ HS)).
       + apply (forall2b_F2_flip _ _ _ _ H). intros x y HS. exact (proj2 (IHf _ _ HS)).
     - (* repetitions *)
-      apply andb_true_iff in H. destruct H as [H HS]. apply andb_true_iff in H.
-      destruct H as [Hmn Hmx]. apply Nat.eqb_eq in Hmn. apply optnat_eqb_eq in Hmx. subst.
+      destruct (Nat.eqb mn1 mn2) eqn:Hmn; [|discriminate H].
+      destruct (optnat_eqb mx1 mx2) eqn:Hmx; [|discriminate H]. rename H into HS.
+      apply Nat.eqb_eq in Hmn. apply optnat_eqb_eq in Hmx. subst.
       split; apply Half_rep; apply (IHf _ _ HS).
     - (* prose *)
       split; apply Half_prose.
@@ -956,23 +974,42 @@ Section Sim.
   Qed.
 End Sim.
 
+(* the comparison of two expressions: normalise, then compare; the same fuel bounds the
+   recursion of [simb_aux] and the rule unfoldings of [charclass] *)
 Definition simb (G1 G2 : grammar) (pairs : list (rid * rid)) (fuel : nat) (e1 e2 : expr) : bool :=
-  simb_aux G1 G2 pairs fuel fuel e1 e2.
+  simb_aux G1 G2 pairs fuel fuel (norm e1) (norm e2).
 
 (* every pair: both rules are defined and their (normalised) definitions are similar *)
 Definition lang_eq_check (G1 G2 : grammar) (pairs : list (rid * rid)) (fuel : nat) : bool :=
-  forallb (pair_ok G1 G2 pairs fuel fuel) pairs.
+  allb (pair_ok G1 G2 pairs fuel fuel) pairs.
+
+Lemma lang_eq_check_spec G1 G2 pairs fuel : lang_eq_check G1 G2 pairs fuel = true <->
+  forall a b, In (a, b) pairs ->
+    exists d1 d2, def G1 a = Some d1 /\ def G2 b = Some d2 /\ simb G1 G2 pairs fuel d1 d2 = true.
+Proof.
+  unfold lang_eq_check, simb. rewrite allb_forallb, forallb_forall. split.
+  - intros Hck a b Hin. specialize (Hck _ Hin). unfold pair_ok in Hck. cbn [fst snd] in Hck.
+    destruct (def G1 a) as [d1|]; [|discriminate]. destruct (def G2 b) as [d2|]; [|discriminate].
+    exists d1, d2. auto.
+  - intros H [a b] Hin. destruct (H a b Hin) as [d1 [d2 [H1 [H2 HS]]]].
+    unfold pair_ok. cbn [fst snd]. rewrite H1, H2. exact HS.
+Qed.
+
+Lemma lang_eq_pairs G1 G2 pairs fuel : lang_eq_check G1 G2 pairs fuel = true ->
+  forall a b, In (a, b) pairs ->
+    exists d1 d2 F, def G1 a = Some d1 /\ def G2 b = Some d2 /\
+                    simb_aux G1 G2 pairs fuel F (norm d1) (norm d2) = true.
+Proof.
+  intros Hck a b Hin.
+  destruct (proj1 (lang_eq_check_spec _ _ _ _) Hck a b Hin) as [d1 [d2 [H1 [H2 HS]]]].
+  exists d1, d2, fuel. auto.
+Qed.
 
 Theorem lang_eq_sound G1 G2 pairs fuel : lang_eq_check G1 G2 pairs fuel = true ->
   forall a b, In (a, b) pairs -> forall s i j, M G1 s (ERef a) i j <-> M G2 s (ERef b) i j.
 Proof.
-  unfold lang_eq_check. rewrite forallb_forall. intros Hck.
-  assert (Hpairs : forall a b, In (a, b) pairs ->
-    exists d1 d2 F, def G1 a = Some d1 /\ def G2 b = Some d2 /\
-                    simb_aux G1 G2 pairs fuel F (norm d1) (norm d2) = true).
-  { intros a b Hin. specialize (Hck _ Hin). unfold pair_ok in Hck. cbn [fst snd] in Hck.
-    destruct (def G1 a) as [d1|]; [|discriminate]. destruct (def G2 b) as [d2|]; [|discriminate].
-    exists d1, d2, fuel. auto. }
+  intros Hck.
+  pose proof (lang_eq_pairs _ _ _ _ Hck) as Hpairs.
   intros a b Hin s i j.
   destruct (Hpairs a b Hin) as [d1 [d2 [F [H1 [H2 HS]]]]].
   assert (HI : forall h, Inv G1 G2 h (ERef a) (ERef b)).
@@ -981,6 +1018,18 @@ Proof.
   split; intros HM; apply M_iff_Mh in HM; destruct HM as [h HM].
   - exact (proj1 (HI h) s i j HM).
   - exact (proj2 (HI h) s i j HM).
+Qed.
+
+(* once the pairs are checked, any two expressions can be compared (with any fuel) *)
+Theorem simb_sound G1 G2 pairs fuel : lang_eq_check G1 G2 pairs fuel = true ->
+  forall f e1 e2, simb G1 G2 pairs f e1 e2 = true ->
+  forall s i j, M G1 s e1 i j <-> M G2 s e2 i j.
+Proof.
+  intros Hck f e1 e2 HS s i j. pose proof (lang_eq_pairs _ _ _ _ Hck) as Hpairs. unfold simb in HS.
+  rewrite <- (norm_M G1 s e1 i j), <- (norm_M G2 s e2 i j).
+  split; intros HM; apply M_iff_Mh in HM; destruct HM as [h HM].
+  - exact (proj1 (simb_inv G1 G2 pairs fuel f Hpairs h f _ _ HS) s i j HM).
+  - exact (proj2 (simb_inv G1 G2 pairs fuel f Hpairs h f _ _ HS) s i j HM).
 Qed.
 
 (* ================================================================================== *)
